@@ -18,6 +18,7 @@ mod ws_codec;
 mod fuzz_misc;
 mod udp_sys;
 mod http_sys;
+mod ws_sys;
 
 use std::collections::HashMap;
 
@@ -147,6 +148,8 @@ fn main() {
         "fuzz-misc" => fuzz_misc::run(&args),
         "udp-sys" => udp_sys::run(&args),
         "http-sys" => http_sys::run(&args),
+        "ws-sys" => ws_sys::run(&args),
+        "ws-sys-case" => ws_sys::case_child(&args),
         "http-tracker" => http_sys::tracker_child(&args),
         "deep-json" => fuzz_misc::deep_json(&args),
         "config-refusal" => http_resp::run_refusal(&args),
